@@ -2,10 +2,9 @@ import KinModel.Lemmas.C04Local5
 namespace KinModel.DocValidate
 
 /-- outside the exclusion classes the code's local checks are exactly the rules in force (`vs`: the verdicts
-of the kids, which only `Encoding.Validate` looks at) -/
+of the kids, which no method looks at since 7cd29a9) -/
 theorem localOK_eq_rules (T : Table) (o : Opts) (d : Doc) (vs : List Bool) (hT : TableOK T = true)
-    (h7 : excl7Node d = false) (hi : exclInnerNode o d = false)
-    (hb : d.kind = .encoding → encHeadersBad T o d vs = false) (hwf : examplesWFor o d = true) :
+    (h7 : excl7Node d = false) (hi : exclInnerNode o d = false) (hwf : examplesWFor o d = true) :
     localOK T o d vs = rulesOK o d := by
   cases d with | node k a kids =>
   cases k
@@ -20,19 +19,17 @@ theorem localOK_eq_rules (T : Table) (o : Opts) (d : Doc) (vs : List Bool) (hT :
     | exact localOK_mediaType T o a kids vs hT hwf
     | exact localOK_header T o a kids vs hT hwf
     | exact localOK_paths T o a kids vs hT h7
-    | exact localOK_encoding T o a kids vs hT (hb rfl)
+    | exact localOK_encoding T o a kids vs hT
     | (rw [rulesOK_inner T o a kids vs]
        have hx : refSibsOK o a = true := by simpa [exclInnerNode, Doc.kind, Doc.attrs] using hi
        simp [hx])
 
 /-- the same, with the model's own verdicts of the kids -/
 theorem localOKV_eq_rules (T : Table) (o : Opts) (d : Doc) (hT : TableOK T = true)
-    (hex : exclLocal T o d = false) (hwf : examplesWFor o d = true) : localOKV T o d = rulesOK o d := by
+    (hex : exclLocal o d = false) (hwf : examplesWFor o d = true) : localOKV T o d = rulesOK o d := by
   unfold exclLocal at hex
   simp only [Bool.or_eq_false_iff] at hex
-  obtain ⟨⟨h7, hi⟩, he⟩ := hex
-  refine localOK_eq_rules T o d _ hT h7 hi (fun hk => ?_) hwf
-  simpa [exclEncNode, hk] using he
+  exact localOK_eq_rules T o d _ hT hex.1 hex.2 hwf
 
 /-- the code's local checks are never stricter than the rules -/
 theorem localOK_of_rulesOK (T : Table) (o : Opts) (d : Doc) (vs : List Bool) (hT : TableOK T = true)
@@ -50,7 +47,7 @@ theorem localOK_of_rulesOK (T : Table) (o : Opts) (d : Doc) (vs : List Bool) (hT
     | (rw [localOK_mediaType T o a kids vs hT hwf]; exact h)
     | (rw [localOK_header T o a kids vs hT hwf]; exact h)
     | exact localOK_paths_of_rules T o a kids vs hT h
-    | exact localOK_encoding_of_rules T o a kids vs hT h
+    | (rw [localOK_encoding T o a kids vs hT]; exact h)
     | (rw [rulesOK_inner T o a kids vs, Bool.and_eq_true] at h; exact h.2)
 
 end KinModel.DocValidate
